@@ -172,7 +172,7 @@ def _tail(out, n=1500):
     return out[i:i + n] if i >= 0 else out[-n:]
 
 
-def tlc_model(spec, cfg=None, invariants_expected_violated=(), require_actions=True, **kw):
+def tlc_model(spec, cfg=None, allow_zero=(), require_actions=True, **kw):
     """Exhaustive model check; returns result and raises RuntimeError on tool failure (not on violation)."""
     kw.setdefault("workers", min(NCPU, 8))
     kw.setdefault("coverage", True)
@@ -180,7 +180,7 @@ def tlc_model(spec, cfg=None, invariants_expected_violated=(), require_actions=T
     if r["rc"] not in (0, 12, 13) and not r["violated"]:
         raise RuntimeError("TLC failed on %s/%s rc=%s\n%s\n%s" % (spec, cfg, r["rc"], _tail(r["out"]), r["err"][-500:]))
     if require_actions and r.get("coverage") is not None and not r["violated"]:
-        zero = [a for a, mod, taken, gen in r["coverage"] if int(gen) == 0 and mod == spec]
+        zero = [a for a, mod, taken, gen in r["coverage"] if int(gen) == 0 and a not in allow_zero]
         r["zero_actions"] = zero
     return r
 
